@@ -43,7 +43,10 @@ def classify(fmt, name, b, err):
         ln, col = int(m.group(1)), int(m.group(2))
         if ln - 1 < len(lines):
             at = lines[ln - 1][max(0, col - 16):col + 16]
-    if "undefined entity" in err and fmt == "epub" and re.search(rb"&[A-Za-z][A-Za-z0-9]*;", at):
+    # the lexer passes anything of the form &alnum; through as an entity; XHTML knows only the five predefined ones
+    # (names like &nbsp; are "undefined", things like &1; are not even names)
+    if fmt == "epub" and (("undefined entity" in err and re.search(rb"&[A-Za-z][A-Za-z0-9]*;", at)) or
+                          ("invalid token" in err and re.search(rb"&[0-9][A-Za-z0-9]*;|&#[xX]?[0-9A-Fa-f]*;", at))):
         return "epub-html-named-entity"
     if fmt in ("fodt", "odt") and b"<<}" in at:
         return "odf-raw-critic-comment-close"
